@@ -23,9 +23,9 @@ func (*C18) Rule() string {
 const c18Orders = 24
 
 func (*C18) Plan(tier string) orch.Plan {
-	n := 40
+	n := 200
 	if tier == "thorough" {
-		n = 4000
+		n = 12000
 	}
 	return orch.Plan{Episodes: n * c18Orders, Batch: 1}
 }
